@@ -1,0 +1,45 @@
+//go:build verif
+
+package goja
+
+import (
+	"fmt"
+	"strings"
+)
+
+// VerifC02DumpProgram returns the opcode skeleton of a compiled Program: one line per instruction
+// holding the instruction's Go type name (no operands, no addresses), nested function bodies
+// indented with '>'. Used by the C02 check to show that two source variants with the same
+// behaviour were really compiled differently (stack vs stash vs dynamic-lookup instructions).
+func VerifC02DumpProgram(p *Program) string {
+	var sb strings.Builder
+	verifC02Dump(p, "", &sb)
+	return sb.String()
+}
+
+func verifC02Dump(p *Program, indent string, sb *strings.Builder) {
+	if p == nil {
+		return
+	}
+	for _, ins := range p.code {
+		sb.WriteString(indent)
+		sb.WriteString(strings.TrimPrefix(strings.TrimPrefix(fmt.Sprintf("%T", ins), "*"), "goja."))
+		sb.WriteByte('\n')
+		var prg *Program
+		switch f := ins.(type) {
+		case newFuncInstruction:
+			prg = f.getPrg()
+		case *newDerivedClass:
+			verifC02Dump(f.initFields, indent+">.", sb)
+			prg = f.ctor
+		case *newClass:
+			verifC02Dump(f.initFields, indent+">.", sb)
+			prg = f.ctor
+		case *newStaticFieldInit:
+			verifC02Dump(f.initFields, indent+">.", sb)
+		}
+		if prg != nil {
+			verifC02Dump(prg, indent+">", sb)
+		}
+	}
+}
